@@ -526,6 +526,9 @@ type mutation struct {
 	Version *uint64 `json:"version,omitempty"` // forge: replace the version
 	Nested  string  `json:"nested,omitempty"`  // forge: apply to this inner envelope of a verifiable doc ("document" | "chipAuthEvidence") and re-seal
 	Foreign string  `json:"foreign,omitempty"` // foreign: hand the genuine export of THIS envelope kind to the recipe's importer
+	// Shadow: the forged magic/version sits under the envelope's own key, and a second entry placed BEFORE it - the
+	// key spelt in upper case ("upper"), capitalised ("title") or repeated literally ("dup") - carries the genuine value
+	Shadow string `json:"shadow,omitempty"`
 }
 
 type recipe struct {
@@ -1025,27 +1028,43 @@ func region(items []cItem, pos int) string {
 }
 
 // forge re-encodes a genuine envelope with another magic and/or version; the payload and its checksum stay genuine.
-func forge(blob []byte, magic string, version *uint64) ([]byte, error) {
+func forge(blob []byte, magic string, version *uint64, shadow string) ([]byte, error) {
 	items, err := cborMapItems(blob)
 	if err != nil {
 		return nil, err
 	}
+	spell := func(k string) string {
+		switch shadow {
+		case "upper":
+			return strings.ToUpper(k)
+		case "title":
+			return strings.ToUpper(k[:1]) + k[1:]
+		}
+		return k
+	}
+	var front []cItem
 	mi, vi := findItem(items, "magic"), findItem(items, "version")
 	if mi == nil || vi == nil || mi.major != 3 || vi.major != 0 {
 		return nil, fmt.Errorf("envelope without magic/version")
 	}
 	if magic != "" {
+		if shadow != "" {
+			front = append(front, cItem{key: spell("magic"), major: mi.major, s: bytes.Clone(mi.s)})
+		}
 		mi.s = []byte(magic)
 	}
 	if version != nil {
+		if shadow != "" {
+			front = append(front, cItem{key: spell("version"), major: vi.major, u: vi.u})
+		}
 		vi.u = *version
 	}
-	return cborEncMap(items), nil
+	return cborEncMap(append(front, items...)), nil
 }
 
 // forgeNested forges the inner envelope `inner` of a verifiable-document blob and re-seals the outer one
 // (outer payload re-encoded, outer checksum recomputed), so that only the inner magic/version is "wrong".
-func forgeNested(blob []byte, inner, magic string, version *uint64) ([]byte, error) {
+func forgeNested(blob []byte, inner, magic string, version *uint64, shadow string) ([]byte, error) {
 	outer, err := cborMapItems(blob)
 	if err != nil {
 		return nil, err
@@ -1062,7 +1081,7 @@ func forgeNested(blob []byte, inner, magic string, version *uint64) ([]byte, err
 	if ii == nil || ii.major != 2 {
 		return nil, fmt.Errorf("no inner envelope %q", inner)
 	}
-	f, err := forge(ii.s, magic, version)
+	f, err := forge(ii.s, magic, version, shadow)
 	if err != nil {
 		return nil, err
 	}
@@ -1173,9 +1192,9 @@ func runRecipe(rec recipe) (key, what, outcome, obs string, harnessErr error) {
 		desc = fmt.Sprintf("extended by the byte %02x", byte(mu.Val))
 	case "forge":
 		if mu.Nested != "" {
-			mb, err = forgeNested(blob, mu.Nested, mu.Magic, mu.Version)
+			mb, err = forgeNested(blob, mu.Nested, mu.Magic, mu.Version, mu.Shadow)
 		} else {
-			mb, err = forge(blob, mu.Magic, mu.Version)
+			mb, err = forge(blob, mu.Magic, mu.Version, mu.Shadow)
 		}
 		if err != nil {
 			return "", "", "", "", fmt.Errorf("forge: %w", err)
@@ -1247,11 +1266,14 @@ func verdictForged(m *model, rec recipe, blob, mb []byte) (key, what, outcome, o
 	if mu.Nested != "" {
 		where += "/nested:" + mu.Nested
 	}
+	if mu.Shadow != "" {
+		where += "/own-key-shadowed-by-" + mu.Shadow + "-key-with-genuine-value"
+	}
 	switch {
 	case pv != nil:
 		return "panic/import/" + imp, fmt.Sprintf("import (%s) panicked on a forged envelope: %v", where, pv), "panic", fmt.Sprintf("import panicked: %v", pv), nil
 	case err != nil:
-		if !foreign && !newer && (mu.Version == nil || *mu.Version == gv) {
+		if !foreign && !newer && (mu.Version == nil || *mu.Version == gv) && mu.Shadow == "" {
 			// the re-encoded genuine envelope must still import: otherwise the forging machinery is broken
 			return "", "", "", "", fmt.Errorf("identity forge of %s rejected: %v", where, err)
 		}
@@ -1707,7 +1729,7 @@ outer4:
 	sec = "magic-version"
 	if len(genuine) == 3 {
 		vers := []uint64{1, 2, 3, 22, 23, 254, 255, 65535, 1 << 32, 1<<63 - 1, 1<<64 - 1}
-		c.SecBound(sec, "importer x {empty, full} document: genuine export of each other envelope; own payload under each of the 3 magics; own magic with version+{1,2,3,22,23,254,255,65535,2^32,2^63-1} and 2^64-1; the same forgeries applied to each inner envelope of a DocumentEx blob with the outer envelope re-sealed")
+		c.SecBound(sec, "importer x {empty, full} document: genuine export of each other envelope; own payload under each of the 3 magics; own magic with version+{1,2,3,22,23,254,255,65535,2^32,2^63-1} and 2^64-1; the same forgeries applied to each inner envelope of a DocumentEx blob with the outer envelope re-sealed; every forgery also with the forged value under the envelope's own key and a second entry BEFORE it (key in upper case, capitalised, or repeated literally) carrying the genuine value")
 		bases := []recipe{{Ev: evSpec{}}, full}
 		imps := []string{"document", "verifiable", "evidence"}
 		for _, base := range bases {
@@ -1738,6 +1760,16 @@ outer4:
 								v = dv
 							}
 							cases = append(cases, mutation{Kind: "forge", Nested: inner, Version: &v})
+						}
+					}
+				}
+				// every forgery also with the envelope's own key shadowed by an entry that carries the genuine value
+				for _, mu := range append([]mutation{}, cases...) {
+					if mu.Kind == "forge" {
+						for _, sh := range []string{"upper", "title", "dup"} {
+							m2 := mu
+							m2.Shadow = sh
+							cases = append(cases, m2)
 						}
 					}
 				}
